@@ -9,6 +9,7 @@ as an unprivileged user, and on seeded VALID policies; the target is a separate 
 to a marker file (proof that it ran) and issues raw probe system calls with chosen 64-bit arguments.
 Judged against the property text: invalid => exit status != 0 and no marker; valid => marker, and every probe
 outcome equals the extracted `decide` of the policy the file denotes. Nothing is decided by message texts."""
+import json
 import os
 import random
 import shutil
@@ -49,6 +50,20 @@ def render_yaml(pol, action_text=None, op_text=None):
                 for (a, o, v) in w["conds"]:
                     out += ["      - argument: %d" % a, "        operation: %s" % ot(o), "        value: %d" % v]
     return "\n".join(out) + "\n"
+
+
+def render_json(pol):
+    """The same policy as JSON text (what json.Marshal of the policy gives; JSON is a subset of YAML)."""
+    groups = []
+    for g in pol["groups"]:
+        d = {"action": ACTION_NAMES[g["action"]]}
+        if g["names"]:
+            d["names"] = list(g["names"])
+        if g["nwc"]:
+            d["names_with_args"] = [{"name": w["name"], "arguments": [{"argument": a, "operation": OP_NAMES[o], "value": v} for (a, o, v) in w["conds"]]}
+                                    for w in g["nwc"]]
+        groups.append(d)
+    return json.dumps({"seccomp": {"default_action": ACTION_NAMES[pol["default"]], "syscalls": groups}}, indent=1) + "\n"
 
 
 def case_variant(rng, names):
@@ -117,7 +132,7 @@ class Box:
         probes=[(nr, a0..a5)]). Returns dict(exit, marker_lines, out lines, stderr)."""
         self.n += 1
         base = os.path.join(self.dir, "c%d" % self.n)
-        pf = base + ".yml"
+        pf = base + case.get("ext", ".yml")
         kind = case["file"][0]
         if kind == "text":
             with open(pf, "w") as f:
@@ -398,7 +413,7 @@ def check_C15(ctx, replay=None):
                 stats["runs"] += 1
                 stats["valid"] += 1
                 probes = [tuple(int(x) for x in (it["events"][i].split()[1:2] + it["events"][i].split()[4:10])) for i in idxs]
-                case = dict(file=("text", it["yaml"]), nnp=it["nnp"], uid=it["uid"], target="probe", probes=probes, extra_args=it.get("extra_args", []))
+                case = dict(file=("text", it["yaml"]), nnp=it["nnp"], uid=it["uid"], target="probe", probes=probes, extra_args=it.get("extra_args", []), ext=it.get("ext", ".yml"))
                 r = box.run(case)
                 t = parse_target_output(r["out"])
                 if len(samples) < 4:
@@ -513,6 +528,11 @@ def check_C15(ctx, replay=None):
             it = dict(cid="s%d" % i, pol=pol, tokens=PolicyGen.tokens(pol), yaml=render_yaml(pol, action_text=case_variant(rng, ACTION_NAMES), op_text=case_variant(rng, OP_NAMES)), nnp=nnp, uid=uid, kind=kind,
                       events=ng.events(pol, 40 if q else 60), default_word=pol["default"])
             if rng.random() < 0.2:
+                # the policy as JSON text (a subset of YAML), in a file named .json / .JSON / .yml
+                it["yaml"] = render_json(pol)
+                it["ext"] = rng.choice([".json", ".json", ".JSON", ".yml"])
+                it["kind"] = kind + "/json"
+            elif rng.random() < 0.2:
                 # a large file: comment lines in front of / behind the policy (sizes around 4 KiB, 64 KiB and beyond)
                 n = rng.choice([4000, 65000, 65536 - len(it["yaml"]) // 2, 65536, 66000, 200000, 1100000])
                 pad = ("# " + "x" * 77 + "\n") * (max(n, 80) // 80)
@@ -534,7 +554,7 @@ def check_C15(ctx, replay=None):
         evaluations=stats["runs"] + stats["probes"], sandbox_runs=stats["runs"], invalid_runs=stats["invalid"], valid_runs=stats["valid"],
         probes_judged=stats["probes"], traces_validated_against_impl=stats["runs"],
         distinct_nontrivial=stats["invalid"] + len(stats["nontrivial"]),
-        rule="the sandbox binary built from the working tree, run (a) on policy files invalid in one way each (missing, directory, empty, no seccomp section, no groups, three kinds of malformed YAML, four wrong types, unknown action / syscall name / operation in several spellings and positions incl. names written as variable references (${X:allow}, $allow, %{allow}), duplicate name, conditional+unconditional, argument index 6/7/100 and indices equal to a valid one modulo 2^29..2^31, an unknown name behind a conditional entry for syscall number 0, entry without conditions, program over 4096 instructions, valid policy refused by the kernel because an outer filter answers seccomp(2) / prctl(2) with EPERM), without target argument, with -no-new-privs=false as uid nobody: judged exit status != 0 and marker file absent; (b) on seeded valid policy files (names, conditions on all six arguments, several groups, over 255 and over 1000 instructions; default allow/log; errno, allow, log, trace, trap, kill_process) with and without -no-new-privs, as root and nobody, one in five padded with comment lines to 4 KiB .. 1.1 MB, with extra target arguments: judged marker written once, every raw probe of the separate target equal to the extracted decide, exit status. non-trivial = invalid runs + distinct (policy, probe) pairs whose specified decision differs from the default action's",
+        rule="the sandbox binary built from the working tree, run (a) on policy files invalid in one way each (missing, directory, empty, no seccomp section, no groups, three kinds of malformed YAML, four wrong types, unknown action / syscall name / operation in several spellings and positions incl. names written as variable references (${X:allow}, $allow, %{allow}), duplicate name, conditional+unconditional, argument index 6/7/100 and indices equal to a valid one modulo 2^29..2^31, an unknown name behind a conditional entry for syscall number 0, entry without conditions, program over 4096 instructions, valid policy refused by the kernel because an outer filter answers seccomp(2) / prctl(2) with EPERM), without target argument, with -no-new-privs=false as uid nobody: judged exit status != 0 and marker file absent; (b) on seeded valid policy files (names, conditions on all six arguments, several groups, over 255 and over 1000 instructions; default allow/log; errno, allow, log, trace, trap, kill_process) with and without -no-new-privs, as root and nobody, one in five padded with comment lines to 4 KiB .. 1.1 MB, one in five written as JSON text in a file named .json / .JSON / .yml, with extra target arguments: judged marker written once, every raw probe of the separate target equal to the extracted decide, exit status. non-trivial = invalid runs + distinct (policy, probe) pairs whose specified decision differs from the default action's",
         counterexamples=nbad, correspondence_differences=ndiff,
         input_distribution=dict(cases=stats["kinds"], outcomes=stats["outcomes"], recorded=stats["recorded"],
                                 program_length=dict(min=min(stats["lens"]) if stats["lens"] else 0, max=max(stats["lens"]) if stats["lens"] else 0,
